@@ -477,10 +477,14 @@ pub fn run_c19(ctx: &Ctx, sizes_override: Option<Vec<usize>>) -> serde_json::Val
         c.nontrivial(H::new().u(c.idx).u(q).u(7).get());
         Ok(())
     });
+    ctx.set_case_timeout(900);
     let sizes: Vec<usize> = match sizes_override {
         Some(v) => v,
         None => {
-            if ctx.is_miri() {
+            if ctx.lane == "tsan" {
+                // ThreadSanitizer costs ~10x: smaller graphs, still above every parallel-split threshold
+                if ctx.tier == Tier::Thorough { vec![0, 1, 5, 1000, 4_100, 20_011, 70_001, 120_013] } else { vec![0, 1, 5, 1000, 4_100, 20_011, 70_001] }
+            } else if ctx.is_miri() {
                 vec![6]
             } else if ctx.tier == Tier::Thorough {
                 vec![0, 1, 2, 5, 50, 1000, 4_100, 20_011, 100_003, 150_001, 500_009, 2_000_003]
@@ -491,11 +495,14 @@ pub fn run_c19(ctx: &Ctx, sizes_override: Option<Vec<usize>>) -> serde_json::Val
         }
     };
     let thorough = ctx.tier == Tier::Thorough;
+    let tsan = ctx.lane == "tsan";
     let szs = sizes.clone();
     ctx.run_group_t("synthetic", sizes.len() as u64, false, 1, move |c| {
         let n_nodes = szs[c.idx as usize];
         let pools: Vec<usize> = if c.lane_miri {
             vec![3]
+        } else if tsan && n_nodes >= 20_000 {
+            vec![2, 4, 16]
         } else if n_nodes >= 500_000 {
             vec![1, 4, 16]
         } else if n_nodes >= 100_000 {
@@ -503,7 +510,7 @@ pub fn run_c19(ctx: &Ctx, sizes_override: Option<Vec<usize>>) -> serde_json::Val
         } else {
             vec![1, 2, 3, 4, 7, 8, 15, 16]
         };
-        let reps = if c.lane_miri { 1 } else if n_nodes >= 100_000 { if thorough { 3 } else { 1 } } else { 2 };
+        let reps = if c.lane_miri || tsan { 1 } else if n_nodes >= 100_000 { if thorough { 3 } else { 1 } } else { 2 };
         c19_synthetic(c, n_nodes, &pools, reps, st)
     });
     if !ctx.is_miri() {
